@@ -17,3 +17,4 @@ import PysersicModel.Render.Tab
 import PysersicModel.Prob.Sky
 import PysersicModel.Prob.Prior
 import PysersicModel.Prob.Fitter
+import PysersicModel.Opt.MapDict
